@@ -17,6 +17,7 @@ import TboxModel.C19.UrlHexProofs
 import TboxModel.C19.Md5Proofs
 import TboxModel.C19.Md5SpecProofs
 import TboxModel.C19.AesProofs
+import TboxModel.C19.AesSpecProofs
 namespace Tbox.C19
 set_option maxRecDepth 100000
 
@@ -507,5 +508,15 @@ theorem C19_aes_roundtrip (key block : List UInt8) (hb : block.length = 16) :
   Aes.invCipher_cipher (fun x => (C19_aes_sbox_inverse x).1) key block hb
 
 example : ((List.range 16).map UInt8.ofNat).length = 16 := by decide
+
+/-- `C19_aes_eq_spec`: for EVERY 16-byte key and EVERY 16-byte block the transcribed AES-128 — the 4×4 row-major state of
+aes.cpp, its key expansion loops, FFmul over the low four bits, the S-boxes and round constants as they are in the source —
+computes exactly the FIPS-197 functions written independently in Spec.lean: state in input order (column words),
+S-box = affine ∘ GF(2^8) inverse and its inverse map by formula, MixColumns / InvMixColumns with full GF(2^8) multiplication,
+the 44-word key schedule recursion of §5.2, Cipher of §5.1 and InvCipher of §5.3. -/
+theorem C19_aes_eq_spec (key block : List UInt8) (hk : key.length = 16) (hb : block.length = 16) :
+    Aes.cipher Aes.gen key block = Spec.aesCipher key block
+      ∧ Aes.invCipher Aes.gen key block = Spec.aesInvCipher key block :=
+  ⟨Aes.cipher_eq_spec key block hk hb, Aes.invCipher_eq_spec key block hk hb⟩
 
 end Tbox.C19
